@@ -221,7 +221,10 @@ func cmdReplay(args []string) int {
 		return 2
 	}
 	if rf.Property == "C20" {
-		c := exec.Command(filepath.Join(verifDir, "bin", "c20.test"), "-test.run", "TestC20", "-c20.replay", args[0])
+		abs, _ := filepath.Abs(args[0])
+		c := exec.Command(filepath.Join(verifDir, "bin", "c20.test"))
+		c.Dir = c20WorkDir("replay")
+		c.Env = append(os.Environ(), "C20_REPLAY="+abs)
 		out, _ := c.CombinedOutput()
 		fmt.Print(string(out))
 		if strings.Contains(string(out), "VIOLATION property=C20") {
@@ -496,9 +499,7 @@ func checkC20(tier string, seed int64, workers int, budget float64) int {
 		fmt.Fprintln(os.Stderr, "c20.test is not built (run_check.sh builds it)")
 		return 2
 	}
-	work := filepath.Join(verifDir, "work", "C20-"+tier)
-	os.RemoveAll(work)
-	os.MkdirAll(work, 0o755)
+	work := c20WorkDir(tier)
 	type proc struct {
 		cmd *exec.Cmd
 		out string
@@ -506,11 +507,12 @@ func checkC20(tier string, seed int64, workers int, budget float64) int {
 	var procs []proc
 	for i := 0; i < workers; i++ {
 		out := filepath.Join(work, fmt.Sprintf("w%d.json", i))
-		c := exec.Command(bin, "-test.run", "TestC20", "-test.timeout", "6h", "-c20.seed", strconv.FormatInt(seed, 10), "-c20.idx", strconv.Itoa(i),
-			"-c20.budget", fmt.Sprintf("%f", budget), "-c20.tier", tier, "-c20.out", out, "-c20.replaydir", filepath.Join(verifDir, "replays"))
+		// no command-line arguments: the connector's packages parse the process flags at init time
+		c := exec.Command(bin)
 		c.Dir = work
 		c.Stderr = os.Stderr
-		c.Env = append(os.Environ(), "GOMAXPROCS=2")
+		c.Env = append(os.Environ(), "GOMAXPROCS=2", "C20_SEED="+strconv.FormatInt(seed, 10), "C20_IDX="+strconv.Itoa(i),
+			"C20_BUDGET="+fmt.Sprintf("%f", budget), "C20_TIER="+tier, "C20_OUT="+out, "C20_REPLAYDIR="+filepath.Join(verifDir, "replays"))
 		if err := c.Start(); err != nil {
 			return 2
 		}
@@ -694,4 +696,14 @@ func cmdSelftest(args []string) int {
 		return 1
 	}
 	return 0
+}
+
+// c20WorkDir prepares the directory the connector test binary runs in: the connector reads config.toml from
+// its working directory while its packages initialise.
+func c20WorkDir(name string) string {
+	work := filepath.Join(verifDir, "work", "C20-"+name)
+	os.RemoveAll(work)
+	os.MkdirAll(work, 0o755)
+	os.WriteFile(filepath.Join(work, "config.toml"), []byte("[minter]\nchain = \"mainnet\"\nmultisig_addr = \"Mxb1d9e1000000000000000000000000000000b1d9\"\nprivate_key = \"\"\napi_addr = \"http://sim.invalid/\"\nstart_block = 1\nstart_event_nonce = 1\nstart_batch_nonce = 1\nstart_valset_nonce = 1\n\n[cosmos]\nmnemonic = \"\"\ngrpc_addr = \"sim.invalid:9090\"\nrpc_addr = \"http://sim.invalid:26657\"\n"), 0o644)
+	return work
 }
